@@ -5,6 +5,8 @@
 
   Events (comma separated fields; logged by the harness's own goroutines under one mutex, calls before the call,
   returns after the return; `k*` are hook events logged inside the router):
+    ahd,h / ahn,h         AddHandler with h's (taken) name: panicked as documented and was recovered / was accepted
+    pol,n                 n goroutines start polling IsClosed()
     ahc,h / ah,h,p|n      AddHandler call / return (p: with publisher, n: AddNoPublisherHandler)
     rc,id / rr,id,nil|err,snap        Run call / return        rhc,id / rhr,id,nil|err   RunHandlers
     sub,h / sube,h        Subscribe called on handler h's subscriber and about to succeed / about to fail (scripted fault)
@@ -35,7 +37,7 @@ def knownKinds : List (String × Nat) :=
   [("ahc",1),("ah",2),("ahp",1),("rc",1),("rr",3),("rhc",1),("rhr",2),("sub",1),("em",2),("ea",2),("hs",2),("hg",2),("he",3),
    ("pb",2),("pc",1),("sc",1),("scr",1),("cc",1),("cr",3),("stp",1),("stpr",2),("st",1),("sd",1),("sdnil",1),("rng",0),
    ("cx",0),("go",0),("qs",0),("sube",1),("nst",1),("sgo",0),("rel",0),("wce",0),("fin",3),("kr",2),("ks",2),("kp",2),("kb",2),("kS",0),("kL",0),("kR",0),
-   ("kh",1),("kg",1),("kw",0),("kd",1),("kl",0),("crash",0),("scd",0),("nrng",0)]
+   ("kh",1),("kg",1),("kw",0),("kd",1),("kl",0),("crash",0),("scd",0),("nrng",0),("ahd",1),("ahn",1),("pol",1)]
 
 def numOf (f : String) : Nat :=
   match f.toNat? with
@@ -297,6 +299,14 @@ def c10SelfClose (evs : Array Ev) : String := Id.run do
   for e in evs do
     if e.k == "rc" && e.n0 != 0 && !anyEv evs (fun a => a.k == "rr" && a.n0 == e.n0) then
       return "violated:second_run_was_let_in(it_did_not_return_an_error)"
+  -- the router has to close itself and Run has to return once the Run context is cancelled / every started handler has ended
+  -- (only names the reason of a wait that ran into the liveness bound: the harness did wait for Run)
+  if anyEv evs (fun e => e.k == "fin" && e.s.getD 0 "" != "0") &&
+     anyEv evs (fun e => e.k == "rc" && e.n0 == 0) && !anyEv evs (fun e => e.k == "rr" && e.n0 == 0) then
+    let subs := handlersOf evs "sub"
+    let allEnded := !subs.isEmpty && subs.all (fun h => anyEv evs (isH "sd" h))
+    if (anyEv evs (is "cx") && allEnded) || (allEnded && !anyEv evs (is "cc")) then
+      return "violated:run_did_not_return_after_self_close(last_handler_ended_but_the_router_stayed_open)"
   for e in evs do
     if e.k == "fin" && e.s.getD 0 "" != "0" then return "violated:stuck(a_wait_ran_into_the_liveness_bound)"
     if e.k == "fin" && e.n1 > 0 then return "violated:router_goroutine_remains"
